@@ -299,7 +299,17 @@ func genC10(c *Ctx) {
 	// section size boundaries: large sections, and the largest count (oracles only for the biggest)
 	for _, n := range []int{255, 256, 1000} {
 		c10CheckPacket(c, c10Packet(r, n, 0, 0, 0, false), n <= 256)
-		c10CheckPacket(c, c10Packet(r, 0, 0, n, 1, false), n <= 256)
+		c10CheckPacket(c, c10Packet(r, 0, 0, n, 1, false), false)
+		// the same shape with short RDATA for the correspondence (the model re-measures the buffer at every step)
+		p := c10Packet(r, 0, 0, n, 1, false)
+		for i := range p.Authority {
+			if len(p.Authority[i].RData) > 6 {
+				p.Authority[i].RData = p.Authority[i].RData[:6]
+				p.Authority[i].RDLength = 6
+			}
+			p.Authority[i].Name.ScopeID = ""
+		}
+		c10CheckPacket(c, p, n <= 256)
 	}
 	c10CheckPacket(c, c10Packet(r, 65535, 0, 0, 0, false), false)
 	if c.Tier == "thorough" {
@@ -396,6 +406,27 @@ func genC10(c *Ctx) {
 		pb := rfc1002Write(q)
 		pb = append(pb, 0xc0, 0x0c, 0x00, 0x20, 0x00, 0x01, 0, 0, 0, 60, 0, 6, 0, 0, 10, 0, 0, 1)
 		c10UnmarshalCase(c, pb)
+	}
+	// label-length octet boundaries in a scope label position (0x40..0xbf are reserved types, 0xc0.. pointers),
+	// with enough bytes behind for the label to be complete
+	for _, n := range []int{1, 31, 32, 33, 62, 63, 64, 65, 127, 128, 191, 192, 193, 254, 255} {
+		for _, after := range []int{0, 1} {
+			b := []byte{0x12, 0x34, 0x01, 0x10, 0, 1, 0, 0, 0, 0, 0, 0, 0x20}
+			b = append(b, rfcFirstLevel([]byte("X"), "")...)
+			b = append(b, byte(n))
+			b = append(b, []byte(strings.Repeat("s", n))...)
+			if after == 1 {
+				b = append(b, 1, 't')
+			}
+			b = append(b, 0, 0, 0x20, 0, 1)
+			c10UnmarshalCase(c, b)
+			c10UnmarshalCase(c, b[:len(b)-1])
+			// the same octet as the first label's length
+			f := []byte{0x12, 0x34, 0x01, 0x10, 0, 1, 0, 0, 0, 0, 0, 0, byte(n)}
+			f = append(f, []byte(strings.Repeat("EB", 128)[:n])...)
+			f = append(f, 0, 0, 0x20, 0, 1)
+			c10UnmarshalCase(c, f)
+		}
 	}
 	// headers announcing more than the body holds, random tails
 	for rep := 0; rep < c.N(300, 6000); rep++ {
